@@ -399,6 +399,7 @@ package core
 //@ guard MemStorage.locToPairs by MemStorage.Mutex
 //@ func (*MemStorage).loc
 //@   requires[C11.memstorage_loc_needs_lock] heldW(s.Mutex)
+//@   assume-entry s.locToPairs != nil
 //@   ensures[C06.mem_loc] has(s.locToPairs, loc) && s.locToPairs[loc] == result && s.locToPairs == old(s.locToPairs)
 //@   modifies s.locToPairs[*]
 
@@ -635,9 +636,12 @@ package core
 //@   also-modifies stRems, stErr
 
 // Properties attach to their target through deleteWith; rules lift their deleteWith to the stored wrapper.
+// data-structure invariant of MemStorage (established by NewMemStorage): the outer map is allocated
 //@ func (*MemStorage).Add
+//@   assume-entry s.locToPairs != nil
 //@   ensures[C06.mem_add] result == nil && has(s.locToPairs, loc) && has(s.locToPairs[loc], old(str(m.K))) && s.locToPairs[loc][old(str(m.K))] == old(str(m.V))
 //@ func (*MemStorage).Remove
+//@   assume-entry s.locToPairs != nil
 //@   ensures[C06.mem_remove] result1 == nil && !has(s.locToPairs[loc], old(str(k)))
 //@ func (*MemStorage).Clear
 //@   ensures[C06.mem_clear] result1 == nil && !has(s.locToPairs, loc)
